@@ -9,6 +9,8 @@
 //!   vh fmt-run parse-expr      stdin: {"text": "..."} -> {"errors": n, "tree": E}
 //!   vh fmt-run module          stdin: {"text": "...", "widths": [w..], "typecheck": bool, "name": "M"} ->
 //!                              parse / print / re-parse comparison, idempotence, comment inventory
+//!   vh fmt-run module-raw      stdin: {"text": "...", "width": w} -> tokens, tree as parsed (import lines in source
+//!                              order), the formatted text with its tokens and the tree it parses to
 //!   vh fmt-run lit             stdin: {"str": "...", "int": "..."} literal print/lex round trips
 //! Every call into /repo code runs under catch_unwind.
 use crate::front::{mod_ref, panic_msg};
@@ -219,6 +221,21 @@ pub fn dump_module(heap: &Heap, m: &Module<()>) -> Value {
     })
     .collect();
   json!({"imports": imports, "toplevels": tops})
+}
+
+/// the module as parsed: import lines in source order (members, module path parts), toplevels as in dump_module
+pub fn dump_module_raw(heap: &Heap, m: &Module<()>) -> Value {
+  let imports: Vec<Value> = m
+    .imports
+    .iter()
+    .map(|i| {
+      json!([
+        i.imported_members.iter().map(|id| json!(id.name.as_str(heap))).collect::<Vec<_>>(),
+        i.imported_module.pretty_print(heap).split('.').map(|p| json!(p)).collect::<Vec<_>>()
+      ])
+    })
+    .collect();
+  json!({"imports": imports, "toplevels": dump_module(heap, m)["toplevels"].clone()})
 }
 
 /// first path at which two JSON values differ (for reports)
@@ -948,6 +965,72 @@ fn run_module(job: &Value) -> Value {
 
 
 // ------------------------------------------------------------------------------------------------
+// module-raw mode: text -> tokens, tree as parsed (imports in source order), formatted text, its tokens and tree
+
+fn parse_raw(text: &str, name: &str, width: Option<usize>) -> Result<(usize, Value, Option<String>), String> {
+  catch_unwind(AssertUnwindSafe(|| {
+    let mut heap = Heap::new();
+    let mut es = ErrorSet::new();
+    let mr = mod_ref(&mut heap, name);
+    let m = samlang_parser::parse_source_module_from_text(text, mr, &mut heap, &mut es);
+    let n = es.errors().len();
+    let printed = match width {
+      Some(w) if n == 0 => Some(samlang_printer::pretty_print_source_module(&heap, w, &m)),
+      _ => None,
+    };
+    (n, dump_module_raw(&heap, &m), printed)
+  }))
+  .map_err(panic_msg)
+}
+
+fn tokens_json(text: &str) -> (Value, usize) {
+  let (toks, le) = lex_tokens(text);
+  (json!(toks.iter().map(|(k, s)| json!([k, s])).collect::<Vec<_>>()), le)
+}
+
+fn run_module_raw(job: &Value) -> Value {
+  let text = job["text"].as_str().unwrap();
+  let name = job["name"].as_str().unwrap_or("Test");
+  let width = job["width"].as_u64().unwrap_or(100) as usize;
+  let (toks, le) = tokens_json(text);
+  let mut res = serde_json::Map::new();
+  res.insert("id".into(), job["id"].clone());
+  res.insert("tokens".into(), toks);
+  res.insert("lex_errors".into(), json!(le));
+  match parse_raw(text, name, Some(width)) {
+    Err(msg) => {
+      res.insert("panic".into(), json!(msg));
+    }
+    Ok((n, raw, printed)) => {
+      res.insert("errors".into(), json!(n));
+      if n == 0 {
+        res.insert("raw".into(), raw);
+      }
+      if let Some(out) = printed {
+        let (ptoks, ple) = tokens_json(&out);
+        let mut p = serde_json::Map::new();
+        p.insert("tokens".into(), ptoks);
+        p.insert("lex_errors".into(), json!(ple));
+        match parse_raw(&out, name, None) {
+          Err(msg) => {
+            p.insert("panic".into(), json!(msg));
+          }
+          Ok((n2, raw2, _)) => {
+            p.insert("errors".into(), json!(n2));
+            if n2 == 0 {
+              p.insert("raw".into(), raw2);
+            }
+          }
+        }
+        p.insert("text".into(), json!(out));
+        res.insert("printed".into(), Value::Object(p));
+      }
+    }
+  }
+  Value::Object(res)
+}
+
+// ------------------------------------------------------------------------------------------------
 // tokens with byte offsets, comment injection (C09)
 
 fn line_starts(text: &str) -> Vec<usize> {
@@ -1374,6 +1457,7 @@ pub fn main(args: &[String]) {
       }
       "lit" => run_lit(&job),
       "module" => run_module(&job),
+      "module-raw" => run_module_raw(&job),
       "tokens" => run_tokens(&job),
       "inject" => run_inject(&job),
       "comment-sites" => run_comment_sites(&job),
